@@ -221,6 +221,20 @@ fn m_id(a: &[MArg]) -> Option<V> {
     a[0].clone().ok()
 }
 
+/// racy(Bytes) -> Int: deliberately non-atomic read-modify-write on a shared counter with a
+/// scheduling point in the middle. Only used as the explorer's canary (C18): its result depends
+/// on the interleaving, so an explorer that never sees two outcomes explores nothing.
+pub static RACY_COUNTER: std::sync::atomic::AtomicI64 = std::sync::atomic::AtomicI64::new(0);
+
+fn m_racy(_: &[MArg]) -> Option<V> {
+    use std::sync::atomic::Ordering::SeqCst;
+    let v = RACY_COUNTER.load(SeqCst);
+    harness_yield("racy.between-load-and-store");
+    RACY_COUNTER.store(v + 1, SeqCst);
+    Some(V::Int(v + 1))
+}
+
+harness_fn!(r_racy, "racy", m_racy);
 harness_fn!(r_idb, "idb", m_idb);
 harness_fn!(r_len, "len", m_len);
 harness_fn!(r_up, "up", m_up);
@@ -282,6 +296,7 @@ pub fn fn_spec(name: &str) -> FnSpec {
         "fb" => f("fb", vec![(Field, Ty::Bool)], vec![], Ty::Bool, m_id, r_fb),
         "fa" => f("fa", vec![(Field, Ty::arr(Ty::Bool))], vec![], Ty::arr(Ty::Bool), m_id, r_fa),
         "fade" => f("fade", vec![(Field, Ty::Bool)], vec![], Ty::Bool, m_id, r_fade),
+        "racy" => f("racy", vec![(Field, Ty::Bytes)], vec![], Ty::Int, m_racy, r_racy),
         "concat" => FnSpec {
             name: "concat",
             params: vec![],
